@@ -98,7 +98,7 @@ func runOne(vm *goja.Runtime, prg *goja.Program) (res string) {
 			res = "gopanic:" + common.OneLine(fmt.Sprint(r))
 		}
 	}()
-	timer := time.AfterFunc(20*time.Second, func() { vm.Interrupt("timeout") })
+	timer := time.AfterFunc(180*time.Second, func() { vm.Interrupt("timeout") })
 	defer timer.Stop()
 	v, err := vm.RunProgram(prg)
 	if err != nil {
@@ -183,8 +183,13 @@ func runProg(c *tcase) answer {
 		a.OK = false
 		a.Diff = append(a.Diff, fmt.Sprintf("sequential run of the shared Program differs from an isolated compile+run: %q vs %q", base, iso))
 	}
+	timeouts := 0
 	for i, r := range res {
 		for k, p := range strings.Split(r, "\x00") {
+			if strings.HasPrefix(p, "error:timeout") { // the watchdog fired (overloaded machine): inconclusive, not a difference
+				timeouts++
+				continue
+			}
 			if p != iso {
 				a.OK = false
 				if len(a.Diff) < 4 {
@@ -192,6 +197,9 @@ func runProg(c *tcase) answer {
 				}
 			}
 		}
+	}
+	if timeouts > 0 {
+		a.Info = fmt.Sprintf("timeouts=%d", timeouts)
 	}
 	return a
 }
@@ -340,6 +348,9 @@ func runPrim(c *tcase) answer {
 	base := runPrimOnce(prg, sep, 0)
 	a := answer{OK: true, Base: common.OneLine(base), Info: strings.Join(reprs, ",")}
 	for i, r := range res {
+		if strings.HasPrefix(r, "error:timeout") { // watchdog (overloaded machine): inconclusive
+			continue
+		}
 		if r != base {
 			a.OK = false
 			if len(a.Diff) < 4 {
